@@ -730,6 +730,16 @@ func (c *Component) handleSessionRelease(sessionId, username, mac, acctSessionID
 	}
 	c.bucketMu.Unlock()
 
+	if !exists || acctSession == nil {
+		// No accounting is open for this session: either it was released
+		// before it ever became active, or this is a repeated Released
+		// notification (e.g. VPP-failure teardown followed by terminate)
+		// and the Stop has already been sent. RFC 2866 wants exactly one
+		// Stop per Start.
+		c.logger.Debug("Session released with no open accounting, not sending stop", "sessionId", sessionId)
+		return nil
+	}
+
 	var sessionDuration uint32
 	var accessType, accessInterface string
 	var svlan, cvlan uint16
